@@ -23,8 +23,22 @@ type c19Expr struct {
 }
 
 func runJpgo(bin string, args []string, stdin []byte) (stdout, stderr string, status int) {
+	return runJpgoFile(bin, args, stdin, "")
+}
+
+// runJpgoFile: stdinFile != "" connects standard input to that regular file (jpgo expr < file)
+// instead of a pipe.
+func runJpgoFile(bin string, args []string, stdin []byte, stdinFile string) (stdout, stderr string, status int) {
 	cmd := exec.Command(bin, args...)
 	cmd.Stdin = bytes.NewReader(stdin)
+	if stdinFile != "" {
+		f, err := os.Open(stdinFile)
+		if err != nil {
+			return "", err.Error(), -1
+		}
+		defer f.Close()
+		cmd.Stdin = f
+	}
 	var o, e bytes.Buffer
 	cmd.Stdout = &o
 	cmd.Stderr = &e
@@ -95,6 +109,9 @@ func checkC19(r *harness.Run) harness.Coverage {
 			for ch := 0; ch < 2; ch++ {
 				jobs = append(jobs, job{ei, ii, ch})
 			}
+			if (ei+ii)%4 == 0 || r.Thorough() {
+				jobs = append(jobs, job{ei, ii, 3}) // stdin redirected from a regular file
+			}
 		}
 		jobs = append(jobs, job{ei, -1, 2}) // missing file
 	}
@@ -118,8 +135,17 @@ func checkC19(r *harness.Run) harness.Coverage {
 			inText = inputs[j.ii].text
 		case 2:
 			args = []string{"-input", filepath.Join(tmp, "does-not-exist.json"), e.text}
+		case 3:
+			args = []string{e.text}
+			inText = inputs[j.ii].text
 		}
-		stdout, stderr, status := runJpgo(bin, args, stdin)
+		var stdout, stderr string
+		var status int
+		if j.ch == 3 {
+			stdout, stderr, status = runJpgoFile(bin, args, nil, files[j.ii])
+		} else {
+			stdout, stderr, status = runJpgo(bin, args, stdin)
+		}
 		atomic.AddInt64(&runs, 1)
 		if e.text != "@" {
 			atomic.AddInt64(&nontriv, 1)
@@ -158,17 +184,17 @@ func checkC19(r *harness.Run) harness.Coverage {
 			}
 			orderDependent[j.ei*len(inputs)+j.ii] = true
 		}
-		in := map[string]interface{}{"expression": e.text, "argv": args, "channel": []string{"-input file", "stdin", "missing file"}[j.ch], "input_text": shorten(inText, 200), "input_bytes": len(inText)}
+		in := map[string]interface{}{"expression": e.text, "argv": args, "channel": []string{"-input file", "stdin", "missing file", "stdin from a regular file"}[j.ch], "input_text": shorten(inText, 200), "input_bytes": len(inText)}
 		if wantOK {
 			atomic.AddInt64(&succ, 1)
 			if stdout != wantOut || status != 0 {
-				r.Report(harness.Violation{Kind: "cli", Signature: fmt.Sprintf("cli-success:%s:%s", e.kind, []string{"file", "stdin", "missing"}[j.ch]) + ":" + e.text,
+				r.Report(harness.Violation{Kind: "cli", Signature: fmt.Sprintf("cli-success:%s:%s", e.kind, []string{"file", "stdin", "missing", "stdin-file"}[j.ch]) + ":" + e.text,
 					Input: in, Expected: fmt.Sprintf("exit 0 and stdout %q", wantOut), Observed: fmt.Sprintf("exit %d, stdout %q, stderr %q", status, stdout, shorten(stderr, 200))})
 			}
 		} else {
 			atomic.AddInt64(&fail, 1)
 			if stdout != "" || status == 0 {
-				r.Report(harness.Violation{Kind: "cli", Signature: fmt.Sprintf("cli-failure:%s:%s", e.kind, []string{"file", "stdin", "missing"}[j.ch]) + ":" + e.text,
+				r.Report(harness.Violation{Kind: "cli", Signature: fmt.Sprintf("cli-failure:%s:%s", e.kind, []string{"file", "stdin", "missing", "stdin-file"}[j.ch]) + ":" + e.text,
 					Input: in, Expected: "no result on standard output and a non-zero exit status", Observed: fmt.Sprintf("exit %d, stdout %q, stderr %q", status, shorten(stdout, 200), shorten(stderr, 200))})
 			}
 		}
